@@ -190,7 +190,7 @@ def run_c19(tier):
         fam, q, t = st
         progs = wrapgen.family(fam, q if tier == "quick" else t, vlib.seed())
         return cached(fam, progs, tier, "TraceTokio", cap, None)
-    with ThreadPoolExecutor(max_workers=int(os.environ.get("VERIF_STAGE_JOBS", "3"))) as ex:
+    with ThreadPoolExecutor(max_workers=int(os.environ.get("VERIF_STAGE_JOBS", "4"))) as ex:
         results = list(ex.map(stage, C19_STAGES))
     for r in results:
         summ.append(r["summary"])
@@ -297,7 +297,7 @@ def run_c20(tier):
         fam, q, t = st
         progs = wrapgen.family(fam, q if tier == "quick" else t, vlib.seed())
         return cached(fam, progs, tier, "TraceLocks", cap, None)
-    with ThreadPoolExecutor(max_workers=int(os.environ.get("VERIF_STAGE_JOBS", "3"))) as ex:
+    with ThreadPoolExecutor(max_workers=int(os.environ.get("VERIF_STAGE_JOBS", "4"))) as ex:
         results = list(ex.map(stage, C20_STAGES))
     summ, problems = [], []
     for r in results:
